@@ -74,8 +74,8 @@ def gen_config(r, clean=False, profile=None):
             uid = [cls] + [r.below(256) for _ in range(6)]
             if tuple(uid) not in used_uid: used_uid.add(tuple(uid)); break
         b = {"id": ids.new("b"), "uid": uid, "pts": [], "dpts": [], "sigs": [], "dsigs": [], "pers": [], "revs": [], "segs": []}
+        nums = []          # one pool per board: a point and a signal sharing a number are rejected by the parser (fix 31797cd)
         for key, pre in (("pts", "pb"), ("sigs", "sb")):
-            nums = []
             for _ in range(r.range(0, 3)):
                 num = r.range(0, 20) if clean or r.chance(3, 4) else r.choice(BOUNDARY_BYTES)
                 if num in nums: continue
